@@ -637,7 +637,6 @@ func (fr *Frame) havocAssigns(ct *Contract, st *State) {
 				st.Heap[k] = HavocAbove(h, vc.allocN, fr.calleeArray(ct, k+"@call", h.S))
 			}
 		case strings.HasPrefix(a, "obj:"):
-			st.Ghost["msgver"] = Add(st.ghost(vc, "msgver"), IntLit(1))
 			// every cell of the object a parameter refers to (and of its nested parts)
 			v, ok := fr.curCallEnv[strings.TrimPrefix(a, "obj:")]
 			if !ok {
@@ -674,11 +673,17 @@ func (fr *Frame) havocAssigns(ct *Contract, st *State) {
 					ot = typeTagTypes[x.Tag.Int]
 				}
 			}
+			isMsg := true
 			if ot != nil {
 				if pt, ok := ot.Underlying().(*types.Pointer); ok && kindOf(pt.Elem()) == "struct" {
 					objKeys = map[string]bool{}
 					fr.keysOfType(pt.Elem(), objKeys)
+					isMsg = messageValueType(pt.Elem())
 				}
+			}
+			if isMsg {
+				// filling an XML message object changes the message version
+				st.Ghost["msgver"] = Add(st.ghost(vc, "msgver"), IntLit(1))
 			}
 			for k, h := range st.Heap {
 				if objKeys != nil && !objKeys[k] {
